@@ -112,8 +112,8 @@ struct PsHarness : Harness {
         return {"crash_between_data_and_checksum_write", "tear_inside_checksum", "short_read_in_last_call", "validated_new_image_after_cut", "validated_old_image_after_cut"};
     }
     uint64_t runs(const std::string &p, const Tier &t) const override {
-        if (p == "C11") return t.thorough() ? 6000000 : 500000;
-        return t.thorough() ? 30000000 : 2500000;
+        if (p == "C11") return t.thorough() ? 3000000 : 500000;
+        return t.thorough() ? 20000000 : 2500000;
     }
     bool nontrivial(const Ctx &c) const override { return c.ops_done > 0 && (c.prop != "C11" || c.faults_fired > 0); }
 
